@@ -335,9 +335,13 @@ class StateMachine(metaclass=StateMachineMeta):
             self._transitioning = True
             label = new_state.LABEL
 
-            # If the previous transition failed, do not try to exit it but go straight to next state
+            # If the previous transition failed, do not try to exit it (again) but go straight to next state
             if not self._transition_failing:
                 self._exit_current_state(new_state)
+            elif self._state is not None and self._state.in_state and not self._state.is_terminal():
+                # The failed transition was cut short before the state it was leaving had been exited (a failing
+                # exiting callback): exit it now, whatever waits on it must be let go
+                self._state.do_exit()
 
             try:
                 self._enter_next_state(new_state)
